@@ -45,6 +45,7 @@ type Op struct {
 	Tag   int    `json:"tag,omitempty"`
 	Big   bool   `json:"big,omitempty"`  // status >= 4096 bytes (two write calls)
 	Pad   int    `json:"pad,omitempty"`  // extra payload bytes
+	Frag  int    `json:"frag,omitempty"` // tear: this many bytes of a status line reach the open run's file, then the recorder is gone
 	Len   int    `json:"len,omitempty"`  // when > 0: the JSON encoding of the status is exactly this long (4096 / 65536 boundaries, > 64 KiB)
 	Days  int    `json:"days,omitempty"` // removeold: retention days (0 = RemoveAll)
 	C     bool   `json:"c,omitempty"`    // touch: the compacted twin
@@ -66,7 +67,7 @@ type History struct {
 	K     int    `json:"k"`
 	Names []Name `json:"names"`
 	Ops   []Op   `json:"ops"`
-	NRec  int    `json:"nrec"` // n of the third ReadStatusRecent call
+	NRec  int    `json:"nrec"`         // n of the third ReadStatusRecent call
 	TZ    string `json:"tz,omitempty"` // the zone (TZ of the driver process) the history was generated for / executed in
 	// execution
 	Loc   string `json:"loc,omitempty"`
@@ -263,6 +264,7 @@ func execute(h *History, base string) bool {
 	h.Steps = nil
 	var reqs []string
 	open := false
+	openD, openStamp, openReq, openMoved := "", "", "", false
 	prevFiles := map[string]FileDump{}
 	for _, o := range h.Ops {
 		op := o
@@ -279,6 +281,7 @@ func execute(h *History, base string) bool {
 				op.Err = "err"
 			} else {
 				open = true
+				openD, openStamp, openReq, openMoved = op.D, op.Stamp, op.Req, false
 			}
 			known := false
 			for _, r := range reqs {
@@ -313,11 +316,37 @@ func execute(h *History, base string) bool {
 			if err := W.Update(op.D, op.Req, st); err != nil {
 				op.Err = "err"
 			}
+		case "tear":
+			// ENVIRONMENT, not a store operation: the recording process is killed in the middle of a status line - a proper prefix of
+			// the JSON text reaches the file through an append-mode descriptor, no newline, and the writer is never used again
+			if !open || openMoved || op.Frag <= 0 {
+				continue
+			}
+			b, _ := json.Marshal(mkStatus(openReq, op.Tag, false, 0, 0))
+			if op.Frag >= len(b) {
+				continue
+			}
+			f, err := os.OpenFile(fileOf(loc, openD, openStamp, trunc8(openReq), false), os.O_APPEND|os.O_WRONLY, 0644)
+			if err != nil {
+				continue
+			}
+			_, werr := f.Write(b[:op.Frag])
+			_ = f.Close()
+			if werr != nil {
+				continue
+			}
+			open = false
 		case "rename":
+			if open && (op.D == openD || addYaml(op.D) == openD || addYaml(op.D2) == openD) {
+				openMoved = true
+			}
 			if err := W.Rename(op.D, op.D2); err != nil {
 				op.Err = "err"
 			}
 		case "removeold":
+			if open && op.D == openD {
+				openMoved = true
+			}
 			before := time.Now()
 			op.Cutoff = before.AddDate(0, 0, -op.Days).UnixNano()
 			var err error
@@ -344,7 +373,7 @@ func execute(h *History, base string) bool {
 			continue
 		}
 		dirsNow, filesNow := dump(loc)
-		if op.T == "open" || op.T == "write" || op.T == "close" || op.T == "update" {
+		if op.T == "open" || op.T == "write" || op.T == "close" || op.T == "update" || op.T == "tear" {
 			// the instant of the modification = the mtime the kernel gave the file(s) this op created or changed
 			op.Now = 0
 			for _, f := range filesNow {
@@ -443,6 +472,7 @@ func init() {
 }
 
 type grun struct {
+	torn   bool
 	d      string
 	day    int
 	clock  string
@@ -562,6 +592,15 @@ func gen(rng *vh.Rng, k int, maxops int) *History {
 			}
 			cur.nst++
 			h.Ops = append(h.Ops, o)
+		case cur != nil && cur.nst > 0 && r >= 64 && r < 68 && os.Getenv("VERIF_NOTEAR") != "1": // the recorder dies mid-line; usually an update follows
+			tag++
+			h.Ops = append(h.Ops, Op{T: "tear", Tag: tag, Frag: 1 + rng.Below(120)})
+			cur.closed, cur.torn = true, true
+			if rng.Chance(3, 4) {
+				tag++
+				h.Ops = append(h.Ops, Op{T: "update", D: cur.d, Req: cur.req, Tag: tag})
+			}
+			cur = nil
 		case cur != nil && r < 68: // close
 			cur.closed = true
 			cur = nil
@@ -608,7 +647,7 @@ func gen(rng *vh.Rng, k int, maxops int) *History {
 		case r < 94 && len(runs) > 0: // touch (age a file)
 			g := runs[rng.Below(len(runs))]
 			age := []int64{3 * 3600, 26 * 3600, 50 * 3600, 8*86400 + 3600, 6*86400 + 3600}[rng.Below(5)]
-			h.Ops = append(h.Ops, Op{T: "touch", D: g.d, Day: g.day, Clock: g.clock, Req: g.req, C: g.closed && g.nst > 0, Age: age})
+			h.Ops = append(h.Ops, Op{T: "touch", D: g.d, Day: g.day, Clock: g.clock, Req: g.req, C: g.closed && g.nst > 0 && !g.torn, Age: age})
 		case r < 100 && len(runs) > 0: // retention
 			d := pick()
 			days := []int{0, 1, 2, 7, 7}[rng.Below(5)]
